@@ -9,10 +9,14 @@ import sys
 
 class _Swallow(logging.Handler):
     """Logging stays ENABLED while the checks run - log records are created, the library's logger filters run and every message is formatted - but nothing
-    is written anywhere: code on the logging path is part of the behaviour (a filter or a message that raises makes the call raise)."""
+    is written anywhere: code on the logging path is part of the behaviour exactly as far as it is in production (a FILTER that raises makes the logging call
+    raise; a message that cannot be formatted does not, real handlers swallow that too)."""
 
     def emit(self, record):
-        record.getMessage()         # (an exception raised here reaches the caller of the logging call)
+        try:
+            record.getMessage()
+        except Exception:  # noqa: BLE001 - as with any real handler: a message that cannot be formatted is reported by logging itself, it never reaches the caller
+            pass
 
 
 logging.getLogger().handlers[:] = [_Swallow()]
